@@ -61,6 +61,16 @@ def check_definition(case):
     x = make_signal(sig, DT[dt])
     x.flags.writeable = False
     N = len(x)
+    pr = case.get("prior")
+    if pr:
+        y = make_signal(pr["sig"], DT[dt])
+        if pr.get("chunked"):
+            h = len(y) // 2
+            call("compute_chunk (earlier utterance)", comp.compute_chunk, y[:h])
+            call("compute_chunk (earlier utterance)", comp.compute_chunk, y[h:])
+            call("finalize (earlier utterance)", comp.finalize)
+        else:
+            call("compute_full (earlier utterance)", comp.compute_full, y)
     got = call("compute_full(%s[%d])" % (dt, N), comp.compute_full, x)
     ncoef = bank.num_filts + int(spec["include_energy"])
     K = (N + S // 2) // S
@@ -153,12 +163,16 @@ def _cases(draw, dtypes=("f64", "f64", "f32", "f16", "ld")):
         st.builds(lambda k, d: max(0, k + d), st.sampled_from([16, 32, 64, 128, 256, 512, 1024, 2048]), st.integers(-3, 60)),
         st.integers(200, 1500),
     ))
-    return {"comp": comp, "dtype": draw(st.sampled_from(list(dtypes))), "sig": draw(signal_specs(st.just(n)))}
+    if draw(st.integers(0, 59)) == 0:
+        n = draw(st.sampled_from([4097, 8193]))
+    prior = draw(st.one_of(st.none(), st.none(), st.fixed_dictionaries({
+        "sig": signal_specs(st.integers(0, 300)), "chunked": st.booleans()})))
+    return {"comp": comp, "dtype": draw(st.sampled_from(list(dtypes))), "sig": draw(signal_specs(st.just(n))), "prior": prior}
 
 
 def clauses(tier):
     return [
         Clause("definition", check_definition,
                "non-trivial = >= 2 frames and at least one full overlap-save block (N >= D - M + 1); distinct by full case",
-               _cases, quick=1200, thorough=40000, fuzz_runs=2500),
+               _cases, quick=1000, thorough=40000, fuzz_runs=2500),
     ]
